@@ -29,6 +29,12 @@ fn generate_hex_from_segment(segment: &[u8]) -> Result<String, Error> {
     Ok(hex)
 }
 
+/// Verification hook: lets the out-of-tree proof harnesses reach the private record builder.
+#[cfg(avra_verif)]
+pub fn verif_generate_hex_from_segment(segment: &[u8]) -> Result<String, Error> {
+    generate_hex_from_segment(segment)
+}
+
 fn generate_hex(br: &BuildResult) -> Result<GenerateResult, Error> {
     let code = generate_hex_from_segment(&br.code)?;
 
